@@ -1,6 +1,8 @@
 /- model driver for C04: one operation per input line, one canonical line out -/
 import Batchie.Model.DriverLoop
+import Batchie.Model.TrainIO
+import Batchie.Model.ScoresIO
 
 open Batchie
 
-def main : IO Unit := DriverLoop.run []
+def main : IO Unit := DriverLoop.run [TrainIO.handle, ScoresIO.handle, ScreenIO.handle]
